@@ -316,6 +316,10 @@ def build(p, env):
         return env.register(build_model(p, env))
     if kind == 'array':
         a = np.array(p['v'], dtype=p.get('dtype', 'float'))
+        if p.get('inv'):
+            # a precision obtained the usual way, as the inverse of a covariance estimate:
+            # symmetric only up to rounding
+            a = np.linalg.inv(a)
         return env.register(a)
     if kind == 'list':
         return [build(q, env) for q in p['items']]
